@@ -330,6 +330,21 @@ def iabc_identity(chk, mod, lib):
             r3, m3 = chk.solve(p.pc, 10000)
             if m3 is not None:
                 native_check(chk, lib, name, [m3.real(v) for v in (a, b, c)], Fr(1, 10 ** 6), 'regime-point')
+            # a regime other than the closed form (expansion around equal arguments) may only be used when two of the
+            # squared arguments are nearly equal *relative to each other*
+            sep = [y_ - x_ > zr(Fr(1, 100)) * y_ for (x_, y_) in ((a2, b2), (b2, c2))]
+            r2, m2 = chk.prove(tag + ':regime-extent', p.pc + sep, family='expansion-vs-definition',
+                               sample={'obligation': 'Iabc: a regime other than the closed form is used only when two squared arguments '
+                                       'agree to 1% of the larger one, for all a<b<c in [1e-3,1e3]'})
+            if r2 == 'sat':
+                for fac in (Fr(2), Fr(13, 10), Fr(105, 100)):
+                    r4, m4 = chk.solve(p.pc + [b2 >= zr(fac) * a2, c2 >= zr(fac) * b2], 10000)
+                    if r4 == 'sat':
+                        m2 = m4
+                        break
+                if native_check(chk, lib, name, [m2.real(v) for v in (a, b, c)], Fr(1, 10 ** 6), 'expansion-window') is not True:
+                    chk.record(tag + ':regime-extent', 'gap', 'expansion used for well separated arguments but accurate at the witness',
+                               family='expansion-vs-definition')
     if ngen == 0:
         chk.record('Iabc:generic', 'inconclusive', 'generic regime not identified')
         chk.inconclusive.append('Iabc:generic')
